@@ -587,6 +587,12 @@ class Interp(object):
         return {"new": self._reg(new), "of": self.U.index(d), "cards_before": before,
                 "cards_after": cards(new), "cards_original": cards(d)}
 
+    def op_reseed(self, k=0):
+        """The application seeds the random module for purposes of its own (a reproducible
+        experiment): an event of the environment, not of the library."""
+        import random
+        random.seed(k)
+
     def op_advance(self, s):
         self.env.clock.advance(s)
 
